@@ -230,6 +230,7 @@ def write_replay(prop, failure):
 
 def replay_file(path, times=3, timeout=1800):
     """Re-run a saved case (bypassing rapidcheck); returns (n_fail, n_runs, last_output)."""
+    path = os.path.abspath(path)
     blob = json.load(open(path))
     cfg = blob["config"]
     exe = build.compile_harness(blob["check"], cfg["build"], cfg["backend"])
